@@ -173,7 +173,8 @@ def gen_multicross(rng):
         cons.append({"type": "MinimumTrials", "trials": rng.randint(2, 9)})
     spec["block"] = {"op": "cross", "design": names, "crossings": crossings, "cons": cons,
                      "rcc": rng.random() < 0.7, "mode": rng.choice(["weight", "repeat", "equal"]),
-                     "align": rng.choice(["equal", "equal", "post", "parallel"]), "ctor": "MultiCrossBlock"}
+                     "align": rng.choice(["equal", "equal", "post", "parallel"]), "ctor": "MultiCrossBlock",
+                     "as_str": rng.random() < 0.35}   # the documented string spellings of mode / alignment
     return spec
 
 
@@ -231,7 +232,8 @@ def gen_merge(rng):
     Th = max(_T_hint(spec, b["crossings"][0]) for b in blocks)
     mcons = [gen_constraint(rng, spec, names, Th, types=RUN_TYPES + ["Pin"]) for _ in range(rng.choice([0, 1]))]
     spec["block"] = {"op": "merge", "blocks": blocks, "cons": mcons,
-                     "mode": rng.choice(["repeat", "repeat", "weight", "equal"]), "align": None}
+                     "mode": rng.choice(["repeat", "repeat", "weight", "equal"]), "align": None,
+                     "as_str": rng.random() < 0.35}
     return spec
 
 
@@ -253,6 +255,11 @@ def gen_nest(rng, deep=None):
                 "mode": "weight", "align": "equal", "ctor": "CrossBlock"}
     outer_f = basics[0]
     ocons = []
+    outer_rcc = True
+    if rng.random() < 0.25 and len(spec["factors"][outer_f]["levels"]) >= 3:
+        # an incomplete outer crossing
+        ocons.append({"type": "Exclude", "factor": outer_f, "level": rng.choice(spec["factors"][outer_f]["levels"])[0]})
+        outer_rcc = False
     r = rng.random()
     if r < 0.25 and all(w == 1 for _, w in spec["factors"][outer_f]["levels"]):
         ocons.append({"type": "Sequential", "factor": outer_f})
@@ -262,16 +269,25 @@ def gen_nest(rng, deep=None):
     if rng.random() < 0.25:
         ocons.append({"type": "MinimumTrials", "trials": rng.randint(2, 4)})
     outer = cross([outer_f], [outer_f], ocons)
+    outer["rcc"] = outer_rcc
+    two_outer = None
+    if len(basics) >= 3 and rng.random() < 0.3:
+        # two sustained factors: the outer block crosses a second basic factor as well
+        two_outer = basics[2]
+        outer = cross([outer_f, two_outer], [outer_f, two_outer], ocons)
+        outer["rcc"] = outer_rcc
     if deep is None:
         deep = rng.random() < 0.25
-    inner_names = [n for n in names if n != outer_f and (spec["factors"][n]["kind"] == "basic"
-                                                         or outer_f not in S.basic_roots(spec, n))]
+    inner_names = [n for n in names if n != outer_f and n != two_outer and (
+        spec["factors"][n]["kind"] == "basic" or not ({outer_f, two_outer} & S.basic_roots(spec, n)))]
     if rng.random() < 0.3:
         inner_names = [n for n in names if n != outer_f or rng.random() < 0.5]
         inner_names = [n for n in names if n in inner_names or
                        (spec["factors"][n]["kind"] == "basic" and any(
                            S.uses(spec, d, n) for d in inner_names if spec["factors"][d]["kind"] == "derived"))]
-    inner_b = [n for n in inner_names if spec["factors"][n]["kind"] == "basic" and n != outer_f]
+    if two_outer:
+        inner_names = [n for n in inner_names if n != two_outer and two_outer not in S.basic_roots(spec, n)]
+    inner_b = [n for n in inner_names if spec["factors"][n]["kind"] == "basic" and n not in (outer_f, two_outer)]
     if not inner_b:
         inner_b = [basics[1]]
         inner_names = sorted(set(inner_names) | {basics[1]}, key=names.index)
@@ -322,8 +338,8 @@ def gen_combo(rng):
     basics = list(spec["order"])
     add_derived(rng, spec, "W", "within", deps=rng.choice([["A", "B"], ["B"], ["B", "A"]] + ([["B", "C"]] if "C" in F else [])),
                 else_level=None)
-    if rng.random() < 0.3:
-        add_derived(rng, spec, "V", "within", deps=rng.choice([["W", "A"], ["W"], ["B", "W"]]), else_level=None)
+    if rng.random() < 0.45:
+        add_derived(rng, spec, "V", "within", deps=rng.choice([["W", "A"], ["W"], ["B", "W"], ["W", "A"]]), else_level=None)
     has_tr = rng.random() < 0.45
     if has_tr:
         add_derived(rng, spec, "Tr", "transition", deps=[rng.choice(["A", "B", "W"])], else_level=None)
@@ -337,8 +353,11 @@ def gen_combo(rng):
     if has_tr:
         options += [["W", "Tr"], ["A", "Tr"], ["W", "Tr"], ["B", "Tr"], ["Tr"], ["Tr"]]
     if "V" in F:
-        options += [["V"], ["A", "V"]]
+        options += [["V"], ["A", "V"], ["A", "V"], ["V"]]
     crossing = rng.choice(options)
+    if "B" not in crossing and rng.random() < 0.3 and all(w == 1 for _, w in F["A"]["levels"]):
+        # a weighted level of a factor outside the crossing (desugared into a hidden mirror factor)
+        rng.choice(F["B"]["levels"])[1] = 2
     size = 1
     for n in crossing:
         size *= sum(w for _, w in F[n]["levels"])
@@ -370,6 +389,10 @@ def gen_combo(rng):
         mt = max(2, min(mt, 8 if pre else 9))
         cons.append({"type": "MinimumTrials", "trials": mt})
         T = max(T, mt)
+    if any(w > 1 for _, w in F["B"]["levels"]) and rng.random() < 0.6:
+        # a whole-factor constraint on the weighted uncrossed factor
+        cons.append({"type": rng.choice(["AtMostKInARow", "AtMostKInARow", "ExactlyKInARow", "ExactlyK"]), "factor": "B",
+                     "level": None, "k": rng.choice([1, 1, 2])})
     if rng.random() < 0.45 or crossing == ["A"]:
         tgt = ["W"] if crossing == ["A"] and rng.random() < 0.7 else names
         cons.append(gen_constraint(rng, spec, tgt, T, types=["AtMostKInARow", "AtMostKInARow", "ExactlyK", "Pin",
